@@ -15,6 +15,7 @@ import (
 func init() { Registry["C04"] = c04 }
 
 func c04(r *Report) {
+	defer c04Seed7(r)
 	defer c04Seed5(r)
 	defer c04Seed6(r)
 	p := r.P
